@@ -48,16 +48,16 @@ Proof.
 Qed.
 
 Lemma exec_emit_each : forall o ps s h w,
-  cw o space = 1 -> scr_ok s h w -> Forall (paint_valid o h w) ps ->
+  cw o space = 1 -> erase_law o -> scr_ok s h w -> Forall (paint_valid o h w) ps ->
   let s' := exec_list o s (flat_map (fun p => fst (emit o t0 p)) ps) in
   scr_ok s' h w /\ sgrid s' = apply_paints o (sgrid s) ps /\ places s' = places s.
 Proof.
-  intros o. induction ps as [|p ps IH]; intros s h w Hsp Hs Hv; cbn [flat_map].
+  intros o. induction ps as [|p ps IH]; intros s h w Hsp Hlaw Hs Hv; cbn [flat_map].
   - rewrite exec_list_nil. auto.
   - inversion Hv; subst. rewrite exec_list_app.
     assert (Hc : consistent t0 s) by (split; simpl; intros; discriminate).
-    destruct (exec_emit o s h w t0 p Hsp Hs Hc H1) as (Hs1 & Hg1 & Hp1 & _).
-    destruct (IH _ h w Hsp Hs1 H2) as (Hs2 & Hg2 & Hp2).
+    destruct (exec_emit o s h w t0 p Hsp Hlaw Hs Hc H1) as (Hs1 & Hg1 & Hp1 & _).
+    destruct (IH _ h w Hsp Hlaw Hs1 H2) as (Hs2 & Hg2 & Hp2).
     split; auto. split.
     + rewrite Hg2, Hg1. reflexivity.
     + rewrite Hp2, Hp1. reflexivity.
@@ -220,6 +220,7 @@ Section Show.
   Variable s : grid cell.
   Let nw := gmap (resolve o) s.
   Hypothesis Hsp : cw o space = 1.
+  Hypothesis Hlaw : erase_law o.
   Hypothesis Hsd : gdims s h w.
   Hypothesis GN : Good o h w nw.
 
@@ -370,7 +371,7 @@ Section Show.
       destruct (naive_conform r row Hr Hrow p Hin) as (H1 & H2 & _). auto. }
     assert (Hvalid : Forall (paint_valid o h w) (naive_rows o 0 s)).
     { apply Forall_forall. intros p Hp. apply Hall. auto. }
-    destruct (exec_emit_each o (naive_rows o 0 s) (blank_screen h w) h w Hsp Hs0 Hvalid) as (Hs1 & Hg1 & Hp1).
+    destruct (exec_emit_each o (naive_rows o 0 s) (blank_screen h w) h w Hsp Hlaw Hs0 Hvalid) as (Hs1 & Hg1 & Hp1).
     set (s1 := exec_list o (blank_screen h w) _) in *.
     assert (Hok1 : forall r c, r < h -> c < w -> covered r c = false -> okc T (sgrid s1) r c).
     { intros r c Hr Hc Hcov. rewrite Hg1.
@@ -418,7 +419,7 @@ Section Show.
           pose proof Hi as Hi2. apply img_at_some in Hi2. destruct Hi2 as (x & Hx & Hk & Hf).
           assert (Hmem : In (r0, c0, f, i) (images_of o s)) by (apply Himg_mem; eauto).
           unfold in_rect in Hin. apply andb_true_iff in Hin. rewrite !in_range_true in Hin.
-          exists (PBlanks (Nat.min r (h - 1)) c0 f (Nat.min (snd (isz o i)) (w - c0))). split.
+          exists (PErase (Nat.min r (h - 1)) c0 f (Nat.min (snd (isz o i)) (w - c0))). split.
           -- unfold imgs_paints. apply in_flat_map. exists (r0, c0, f, i). split; auto.
              unfold img_paints. apply in_map_iff. exists r. split; auto. apply in_seq. lia.
           -- simpl. rewrite Nat.min_l by lia. split; auto. lia.
